@@ -552,6 +552,10 @@ class World:
 
     def after_abort(self, how, before, interesting):
         m = self.m
+        if m.lenient_disowned and m.savepoints and how != 'abort':
+            # a commit of a transaction that has savepoints first saves everything once more: new objects
+            # created after the last savepoint share the fate of the saved ones (not used again)
+            m.owned |= m.closure()
         disowned = m.do_abort()
         self.sps = []
         if self.last_txn() != before:
